@@ -18,6 +18,7 @@ mod wire;
 
 mod c01;
 mod c02;
+mod c03;
 mod c04;
 mod c05;
 mod c06;
@@ -96,12 +97,16 @@ fn main() {
         threads = 1;
     }
     ev::install_panic_hook(verbose);
+    if scale != Scale::Miri {
+        ev::start_hang_watchdog(Box::leak(prop.clone().into_boxed_str()), seed, out.clone(), 20);
+    }
 
     let id: &'static str = Box::leak(prop.clone().into_boxed_str());
     let ctx = Ctx::new(id, seed, tier, scale, threads, out, replay, verbose);
     let code = match prop.as_str() {
         "C01" => c01::run(&ctx, evidence.as_ref()),
         "C02" => c02::run(&ctx, evidence.as_ref()),
+        "C03" => c03::run(&ctx, evidence.as_ref()),
         "C04" => c04::run_all(&ctx, evidence.as_ref()),
         "C05" => c05::run(&ctx, evidence.as_ref()),
         "C06" => c06::run(&ctx, evidence.as_ref()),
